@@ -1128,6 +1128,9 @@ fn run_frames(ops: &[FrameOp], obs: &mut Obs) -> Result<(), Violation> {
         }
     }
     obs.nontrivial = max_nest >= 2;
+    if max_nest >= 3 {
+        obs.count("probe.three_or_more_frames_nested");
+    }
     Ok(())
 }
 
@@ -1363,9 +1366,11 @@ impl World for BwdWorld {
     fn generate(&self, prop: &str, _tier: Tier, rng: &mut Rng) -> BwdTrace {
         let hash_seed = rng.next_u64();
         if prop == "C10" && rng.chance(1, 3) {
-            let n = 2 + rng.usize(9);
+            // 2-10 operations; one history in four is longer (11-20) and nests deeper (more Begins)
+            let deep = rng.chance(1, 4);
+            let n = if deep { 11 + rng.usize(10) } else { 2 + rng.usize(9) };
             let ops = (0..n)
-                .map(|_| match rng.weighted(&[22, 12, 16, 18, 12, 10, 10, 4, 10, 8, 5]) {
+                .map(|_| match rng.weighted(&[if deep { 32 } else { 22 }, 12, 16, 18, 12, 10, 10, 4, 10, 8, 5]) {
                     0 => FrameOp::Begin,
                     1 => FrameOp::Commit,
                     2 => FrameOp::Rollback,
